@@ -1362,6 +1362,7 @@ func (x *fnCtx) mapUpdate(st *State, fr *Frame, v *ssa.MapUpdate) {
 }
 
 func (x *fnCtx) mapStore(st *State, m *Val, key *Term, val *Val) {
+	st.markEscaped(val)
 	mt := m.T.Underlying().(*types.Map)
 	ks, _ := mapSorts(mt)
 	name := mapHeapName(mt)
